@@ -398,8 +398,9 @@ type verifPointerThenValue struct {
 	B verifInnerVP  `json:"b"`
 }
 
-//verif:harness id=C18 tier=quick,thorough witness=end bounds="one struct type used by value and through a pointer in the same type (value first / pointer first in JSON-name order), the pointer nil or set, the int32 member symbolic; and generation that starts from a container of a recursive struct (map[string]T, []T, *T for T recursive through map values and slice elements): the encoding of the value validates against the generated schema and every $ref names a component"
+//verif:harness id=C18 tier=quick,thorough witness=end bounds="one struct type used by value and through a pointer in the same type (value first / pointer first in JSON-name order), the pointer nil or set, the int32 member symbolic, with and without component export; and generation that starts from a container of a recursive struct (map[string]T, []T, *T for T recursive through map values and slice elements): the encoding of the value validates against the generated schema and every $ref names a component"
 func verifH_C18_value_and_pointer() {
+	verifMapOrder()
 	comps := openapi3.Schemas{}
 	var ref *openapi3.SchemaRef
 	var err error
@@ -411,12 +412,16 @@ func verifH_C18_value_and_pointer() {
 		ptr = inner
 	}
 	leaf := map[string]any{"name": "m", "sub": map[string]any{}, "list": []any{}}
+	var opts []Option
+	if verifChoose("export", 2) == 1 {
+		opts = append(opts, CreateComponentSchemas(ExportComponentSchemasOptions{ExportComponentSchemas: true}))
+	}
 	switch verifChoose("type", 5) {
 	case 0:
-		ref, err = NewSchemaRefForValue(&verifValueThenPointer{}, comps)
+		ref, err = NewSchemaRefForValue(&verifValueThenPointer{}, comps, opts...)
 		enc = map[string]any{"a": inner, "b": ptr}
 	case 1:
-		ref, err = NewSchemaRefForValue(&verifPointerThenValue{}, comps)
+		ref, err = NewSchemaRefForValue(&verifPointerThenValue{}, comps, opts...)
 		enc = map[string]any{"a": ptr, "b": inner}
 	case 2:
 		ref, err = NewSchemaRefForValue(map[string]verifDir{}, comps)
